@@ -12,26 +12,16 @@ from ..source import norm, const_value, walk_no_nested, FuncInfo, ClassInfo
 from . import direction_folds as df
 from .common import is_name, params, returns_of, calls_in, single_return
 
-EXPLANATION = (
-    "Static rules on plot/direction.py and core/vector.py: (R1) the axis table literals are the unit axis vectors and the "
-    "(n,u,v) triples of 'x','y','z' are orthonormal with u x v = n (integer arithmetic on the extracted literals); a "
-    "three-letter string maps its letters to n,u,v in order; (R2) VectorBasis.__init__ completes u with a perpendicular "
-    "vector and v with n.cross(u) and assigns normalize(...) to all three; normalize divides by the norm with an EXACT-zero "
-    "guard; (R3) perpendicular_vector: in every branch the result is orthogonal to the input as a rational identity under "
-    "the branch condition, and it cannot vanish for a non-zero input (rank condition on the linear components); (R4) "
-    "handedness: with v = n x u the identity (u x (n x u)).n = |u|^2|n|^2 - (u.n)^2 holds for the repository's cross "
-    "product (symbolically executed), so u x v is parallel to +n; roll is the cyclic permutation; (R5) every accepted "
-    "form of get_direction returns a VectorBasis; 'top' builds n from sum((pos*mass)[sphere] x vel[sphere]) with "
-    "sphere = |pos - origin| < (dx+dy)/4 and 'side' is its roll.")
-NOT_DECIDED = ("degenerate floating-point inputs (denormal z makes (x+y)/z overflow); exactness of pint/numpy normalisation; "
-               "zero net angular momentum")
-TRUSTED = ("CPython ast", "cross-product formula as verified by C09.R3", "polynomial normal forms")
+EXPLANATION = "(R1) get_direction interpreted on the COMPLETE finite domain of string forms (letters, the six triples, upper case) in exact rational arithmetic: exactly the documented axis vectors, single letters right-handed, unusable directions raise; (R2) normalize = v/|v| for every zero-pattern family of a generic vector (zero vector unchanged); VectorBasis / get_direction(vector) / roll with normalize abstracted as positive scaling: orthogonal, u x v parallel to +n (sign decided per orthant of the non-zero components), n along the request, caller's vector unchanged; (R3/R4) perpendicular_vector orthogonal and non-vanishing in every branch, (u x (n x u)).n identity for the repository's cross product (symbolic execution); (R5) 'top'/'side': the summed vector equals ((pos-origin)*mass) x velocity over ONE sphere mask |pos-origin| < radius (polynomial normal forms), normal along +L / L in the image plane; (R6) Vector.norm not cached."
+NOT_DECIDED = 'degenerate floating-point inputs (denormals, overflow of (x+y)/z); zero net angular momentum; tolerance-based zero tests are treated adversarially (they may hold at a tiny non-zero point)'
+TRUSTED = ('CPython ast', 'polynomial/rational normal forms with square-root relations (sa/poly.py)', 'the interpreter sa/models.py (ModelEval) and its library models')
 
 PV = "core/vector.py::perpendicular_vector"
 NORMALIZE = "core/vector.py::normalize"
 VB = "core/vector.py::VectorBasis"
 GD = "plot/direction.py::get_direction"
 
+TECHNIQUE = 'static analysis: abstract interpretation with exact rational functions (symbolic vectors per zero-pattern family), complete-finite-domain folding of the string forms'
 
 def r1_axis_table(run, tree):
     run.rule("C18.R1", "every string form ('x','y','z', the six three-letter orders, any case) gives exactly the documented axis vectors; "
